@@ -41,15 +41,23 @@ pub open spec fn no_rh_for(rs: Seq<ReRun>, host_lower: Seq<char>) -> bool {
     forall|i: int| 0 <= i < rs.len() ==> !is_rh_for((#[trigger] rs[i]).command, host_lower)
 }
 // b is a with some elements removed, order kept, and every element that does not satisfy `gone` kept
+// largest label (in bytes) that the encoder would split the name into
+pub uninterp spec fn max_label(s: Seq<char>) -> nat;
 pub open spec fn backoff(d: u32) -> u32 { if 2 * d <= 3600 { (2 * d) as u32 } else { 3600u32 } }
 pub open spec fn sat_add(a: u64, b: u64) -> u64 { if a + b > u64::MAX { u64::MAX } else { (a + b) as u64 } }
 
 impl Zeroconf {
     // &self senders: no daemon state is touched (they only write to sockets / the self-pipe)
+    // wire contract as stub precondition: what is handed to the encoder must be encodable (every label
+    // < 64 bytes), otherwise DnsOutPacket::write_utf8's assert! panics the daemon thread   (C15)
     #[verifier::external_body]
-    pub fn send_query(&self, name: &str, qtype: RRType) { unimplemented!() }
+    pub fn send_query(&self, name: &str, qtype: RRType)
+        requires max_label(name@) < 64, // @props C15
+    { unimplemented!() }
     #[verifier::external_body]
-    pub fn send_query_vec(&self, questions: &[(&str, RRType)]) { unimplemented!() }
+    pub fn send_query_vec(&self, questions: &[(&str, RRType)])
+        requires forall|i: int| 0 <= i < questions@.len() ==> max_label((#[trigger] questions@[i]).0@) < 64, // @props C15
+    { unimplemented!() }
     #[verifier::external_body]
     pub fn unregister_service(&self, info: &ServiceInfo, intf: &MyIntf, sock: &PktInfoUdpSocket) -> (r: Vec<u8>) { unimplemented!() }
 
@@ -82,3 +90,10 @@ impl Zeroconf {
         ensures *final(self) == *old(self),
     { unimplemented!() }
 }
+
+// R8 named havoc for `query_vec` in exec_command_verify (names come from DnsCache::service_verify_queries):
+// assumed to be encodable names - they were decoded from wire labels of at most 63 bytes
+#[verifier::external_body]
+pub fn vx_any_cached_names<'a>() -> (r: Vec<(&'a str, RRType)>)
+    ensures forall|i: int| 0 <= i < r@.len() ==> max_label((#[trigger] r@[i]).0@) < 64,
+{ unimplemented!() }
